@@ -13,7 +13,12 @@ inductive Line
   | op (o : Op)
   | lockorder (edges : List (String × String))
   | steporder
+  | lockmode
   | stress
+  | batches (expected : Nat)
+
+def field (name : String) (tok : String) : Option String :=
+  if tok.startsWith (name ++ "=") then some (String.ofList (tok.toList.drop (name.length + 1))) else none
 
 def parseEdges (s : String) : Option (List (String × String)) :=
   (splitComma s).mapM fun e =>
@@ -36,6 +41,10 @@ def parseLine : List String → Option Line
   | ["read-end", r] => do some (.op (.readEnd (← r.toNat?)))
   | ["lockorder", es] => do some (.lockorder (← parseEdges es))
   | ["steporder"] => some .steporder
+  | ["lockmode"] => some .lockmode
+  | ["batches", seed, w, n, r] => do
+    let _ ← seed.toNat?
+    some (.batches ((← w.toNat?) * (← n.toNat?) * (← r.toNat?)))
   | ["stress", seed, w, r, n] => do
     let _ ← seed.toNat?; let _ ← w.toNat?; let _ ← r.toNat?; let _ ← n.toNat?
     some .stress
@@ -87,6 +96,8 @@ def step (y : Sys) (toks : List String) : Sys × String :=
   | some (.op o) => let (y', a) := sysStep y o; (y', render a)
   | some (.lockorder es) => (y, "acyclic=" ++ boolStr (LockOrder.isAcyclic es))
   | some .steporder => (y, showStepOrder Spec.C39.expectedStepOrder)
+  | some .lockmode => (y, Spec.C39.expectedLockModes)
+  | some (.batches n) => (y, s!"acked={n} readable={n} lost=-")
   | some .stress => (y, "*")       -- a free-running schedule: not predicted, judged by the oracle
   | none => (y, "bad-op")
 
@@ -117,6 +128,20 @@ def oracle (obs : List (List String × String)) : Verdict :=
       let ok := a == showStepOrder Spec.C39.expectedStepOrder
       v.and { ok := ok, nontrivial := true, tags := ["steporder"],
               reason := if ok then "" else "step-order-changed:" ++ a.replace " " "_" }
+    | .lockmode =>
+      let ok := a == Spec.C39.expectedLockModes
+      v.and { ok := ok, nontrivial := true, tags := ["lockmode"],
+              reason := if ok then "" else "lock-mode-changed:" ++ a.replace " " "_" }
+    | .batches n =>
+      match tokens a with
+      | [ac, rd, lost] =>
+        match (field "acked" ac).bind String.toNat?, (field "readable" rd).bind String.toNat? with
+        | some acked, some readable =>
+          let ok := Spec.C39.batchesOK n acked readable
+          v.and { ok := ok, nontrivial := true, tags := ["batches"],
+                  reason := if ok then "" else s!"acknowledged-write-lost:{acked - readable}-of-{acked}-{lost}" }
+        | _, _ => v.and (Verdict.fail ("bad-observation:" ++ ((a.take 40).replace " " "_")))
+      | _ => v.and (Verdict.fail ("bad-observation:" ++ ((a.take 40).replace " " "_")))
     | .stress =>
       match parseStress a with
       | some (ws, rs) =>
